@@ -70,4 +70,19 @@ def holdsFrom (maxCount maxBytes : Nat) : PS → List Tk → Bool
 
 def holds (maxCount maxBytes : Nat) (ts : List Tk) : Bool := holdsFrom maxCount maxBytes {} ts
 
+/-- The staleness clause read literally off the trace, in heartbeat iterations: `pend` holds, for
+    every event appended and not yet sealed, the number of `h` tokens logged since its own `a`.
+    An event may see at most `maxTicks` heartbeat iterations before the `s` of its batch
+    (heartbeat iterations are at least 100 ms apart, so this is a lower bound of its real age). -/
+def staleTicksFrom (maxTicks : Nat) : List Nat → List Tk → Bool
+  | _, [] => true
+  | pend, .a _ :: ts => staleTicksFrom maxTicks (pend ++ [0]) ts
+  | pend, .h :: ts =>
+    let pend' := pend.map (· + 1)
+    if pend'.all (· ≤ maxTicks) then staleTicksFrom maxTicks pend' ts else false
+  | _, .s _ _ :: ts => staleTicksFrom maxTicks [] ts
+  | pend, _ :: ts => staleTicksFrom maxTicks pend ts
+
+def staleTicksOk (maxTicks : Nat) (ts : List Tk) : Bool := staleTicksFrom maxTicks [] ts
+
 end FileD.SpecC08
